@@ -165,6 +165,19 @@ fn c01_codec<C: Oracle>(rep: &mut Report, thorough: bool, rng: &mut Rng) {
         inputs.push(v);
         inputs.push(v2);
     }
+    // multi-byte UTF-8: characters whose code point's LOW byte is a symbol character (U+0100 + c), and 'é'
+    for &c in valid.iter().take(4) {
+        for pos in 0..3usize {
+            let ch = char::from_u32(0x100 + c as u32).unwrap();
+            let mut st: String = (0..pos).map(|_| valid[0] as char).collect();
+            st.push(ch);
+            st.push(valid[valid.len() - 1] as char);
+            inputs.push(st.into_bytes());
+        }
+    }
+    inputs.push("é".as_bytes().to_vec());
+    inputs.push(format!("{}é{}", valid[0] as char, valid[0] as char).into_bytes());
+    inputs.push("\u{1F9EC}".as_bytes().to_vec());
     for bytes in &inputs {
         rep.case(|| format!("{} {}", C::NAME, show(bytes)));
         check_parse::<C>(rep, Seq::<C>::try_from(&bytes[..]), bytes, "TryFrom<&[u8]>");
@@ -265,6 +278,52 @@ fn c02_text<C: Oracle>(rep: &mut Report, rng: &mut Rng) {
         }
     }
 }
+fn c02_owned<C: Oracle>(rep: &mut Report, rng: &mut Rng) {
+    // owned sequences with the same content but different histories (stale bits beyond the end,
+    // spare capacity, copied from an offset) must be equal in every pairing and hash alike
+    for n in [0usize, 1, 3, 4, 9, 31, 33] {
+        let rows = rand_rows::<C>(rng, n);
+        let fresh = build::<C>(&rows);
+        let mut variants: Vec<(&str, Seq<C>)> = vec![];
+        let mut longer = rows.clone();
+        longer.extend((0..5).map(|_| C::len() - 1));
+        let mut t = build::<C>(&longer);
+        t.truncate(n);
+        variants.push(("truncate", t));
+        let mut r = build::<C>(&longer);
+        r.remove(n..);
+        variants.push(("remove tail", r));
+        let mut r2 = { let mut l = vec![C::len() - 1; 3]; l.extend(&rows); build::<C>(&l) };
+        r2.remove(..3);
+        variants.push(("remove head", r2));
+        let img: Vec<usize> = { let mut v = build::<C>(&longer).into_raw().to_vec(); v.push(usize::MAX); v };
+        if let Some(fr) = Seq::<C>::from_raw(n, &img) {
+            variants.push(("from_raw with dirty tail", fr));
+        }
+        with_offset::<C, _>(&rows, 3, &mut Rng::new(rng.next()), |sl| variants.push(("to_owned of offset slice", sl.to_owned())));
+        let mut c = build::<C>(&longer);
+        c.clear();
+        c.extend(rows.iter().map(|&x| C::entry(x).sym));
+        variants.push(("clear + extend", c));
+        for (how, v) in &variants {
+            rep.case(|| format!("{} n={} {}", C::NAME, n, how));
+            let ok = *v == fresh && fresh == *v && &fresh == *v && *v == &fresh && v == &&fresh[..] && fresh[..] == *v && &fresh[..] == *v && *v == fresh[..];
+            rep.expect(ok, "C02 owned sequences with the same content are equal whatever their history, in every pairing and direction", || format!("{} n={} history={} {} vs {}", C::NAME, n, how, v, fresh));
+            rep.expect(rec(v) == rec(&fresh) && rec(v) == rec(&fresh[..]), "C02 equal sequences feed identical data to the hasher whatever their history", || format!("{} n={} history={}", C::NAME, n, how));
+            let mut m: HashMap<Seq<C>, usize> = HashMap::new();
+            m.insert(v.clone(), 1);
+            rep.expect(m.get(&fresh) == Some(&1) && m.get(&fresh[..]) == Some(&1), "C02 a shortened owned key is found by a fresh owned or borrowed sequence with the same content", || format!("{} n={} history={}", C::NAME, n, how));
+            if n > 0 && C::len() > 1 {
+                let mut other = rows.clone();
+                other[n - 1] = (other[n - 1] + 1) % C::len();
+                let o = build::<C>(&other);
+                if o.to_string() != fresh.to_string() {
+                    rep.expect(*v != o && o != *v, "C02 owned sequences differing in the last symbol are unequal", || format!("{} {} vs {}", C::NAME, v, o));
+                }
+            }
+        }
+    }
+}
 fn c02(_tier: &str, seed: u64) -> Report {
     let mut rep = Report::new("C02", "k-mers K in {1,2,5,8,16,31,32} (Dna), {1,3,16} (Iupac), {1,4,10} (Amino), {1,8} (text) at symbol offsets 0,1,3,7; text comparison for lengths 0..4 at random offsets; recording hasher");
     rep.functions = vec!["PartialEq<&str> for SeqSlice (zip loop)", "PartialEq<&str> for Kmer (to_string)", "HashMap<Seq,_>::get(&SeqSlice) via Borrow", "Hash for Kmer/Seq/SeqSlice (cross-check of the Verus contract with a recording hasher)"];
@@ -285,6 +344,7 @@ fn c02(_tier: &str, seed: u64) -> Report {
     c02_kmer::<text::Dna, 1>(&mut rep, &mut rng);
     c02_kmer::<text::Dna, 8>(&mut rep, &mut rng);
     for_codecs!(c02_text, &mut rep, &mut rng);
+    for_codecs!(c02_owned, &mut rep, &mut rng);
     rep
 }
 
